@@ -36,7 +36,8 @@ Observation: {"ctor_err": null | name, "init": state, "steps": [state + {"err":â
   state = {"src": [[int]], "tgt": [[val]], "cls": [[val]], "refs": [[[p, rhs], ...]],
            "watch": [[[t, ...] per parameter] per source],     -- `_sync_refs` watchers, registration order
            "own": [[1 if T<t> itself holds the Parameter p (not inherited) ...] per target],
-           "aux": [[e_ value, e_ mode, syncing names...] per target] + [[W.a, inspect_value(W.a)]]}
+           "aux": [[e_ value, e_ mode, class e_ mode, constant flag of each parameter (the instance's Parameter, then
+                    the class Parameter), syncing names...] per target] + [[W.a, inspect_value(W.a)]]}
              -- state that must never move: the Event parameter idle (False, 'set-reset'), `syncing` empty,
              -- the shared generator's witness value (under Dynamic.time_dependent) undisturbed
   log   = [["s"|"t", index, [[p, new], ...]], ...]             -- one entry per call of the universal watcher
@@ -257,7 +258,14 @@ class Runner:
         for t, obj in enumerate(self.tgts):
             ev = obj._param__private.params.get('e_') or self.tcls[t].param.objects(instance=False)['e_']
             clsev = self.tcls[t].param.objects(instance=False)['e_']
-            rows.append([int(bool(obj.e_)), self.MODES.get(ev._mode, 9), self.MODES.get(clsev._mode, 9)] +
+            clsp = self.tcls[t].param.objects(instance=False)
+            instp = obj._param__private.params
+            # the `constant` flag of every Parameter object: the one the instance uses (its own copy if it has
+            # one) and the class-level one â€” `_sync_refs` writes constants under edit_constant, which must put
+            # every flag back whether or not the write succeeds
+            flags = [int(bool((instp.get(n) or clsp[n]).constant)) for n in self.tnames[t]] + \
+                    [int(bool(clsp[n].constant)) for n in self.tnames[t]]
+            rows.append([int(bool(obj.e_)), self.MODES.get(ev._mode, 9), self.MODES.get(clsev._mode, 9)] + flags +
                         sorted(self.tnames[t].index(n) if n in self.tnames[t] else 99 for n in obj._param__private.syncing))
         last = self.wit.param.inspect_value('a')
         rows.append([self.wit.a, -1 if last is None else last])
